@@ -65,4 +65,22 @@ theorem makeChecksum_eq_iff (a b : Bytes) :
   · intro h
     rw [makeChecksum_spec, makeChecksum_spec, h]
 
+theorem makeChecksum_single_byte (pre post : Bytes) (x y : UInt8) (h : x ≠ y) :
+    makeChecksum (pre ++ x :: post) ≠ makeChecksum (pre ++ y :: post) := by
+  intro heq
+  have hm := (makeChecksum_eq_iff _ _).mp heq
+  have hx : x.toNat < 256 := x.toNat_lt
+  have hy : y.toNat < 256 := y.toNat_lt
+  have hne : x.toNat ≠ y.toNat := fun e => h (UInt8.toNat_inj.mp e)
+  have hrel := byteSum_set pre post x y
+  omega
+
+theorem makeChecksum_drop_head (x : UInt8) (post : Bytes) (hx : x.toNat ≠ 0) :
+    makeChecksum (x :: post) ≠ makeChecksum post := by
+  intro heq
+  have hm := (makeChecksum_eq_iff _ _).mp heq
+  rw [byteSum_cons] at hm
+  have : x.toNat < 256 := x.toNat_lt
+  omega
+
 end Astm
